@@ -272,6 +272,18 @@ func c06Levels(tier string) []core.Level {
 				}
 			}
 		}},
+		{Name: fmt.Sprintf("constant conditions: chains of <= 2 conditions over %d literals and constant expressions ('0', \"0\", 0.0, [], {}, parenthesised, negated, concatenated ...), written bare / parenthesised / through a variable holding the value, x presence of else: the branch taken is the one the library's coercion of the evaluated value selects", len(c06Lits)), Gen: func(emit func(core.Case)) {
+			for e := 0; e < 2; e++ {
+				for form := 0; form < 3; form++ {
+					for i := range c06Lits {
+						emit(core.Case{Fam: "litchain", N: []int{e, form, i}})
+						for j := range c06Lits {
+							emit(core.Case{Fam: "litchain", N: []int{e, form, i, j}})
+						}
+					}
+				}
+			}
+		}},
 		{Name: "nested chains (if/elseif/else in every branch): depth 2 under every truth assignment (8 conditions), depth 3 under every 10-bit pattern applied cyclically to its 26 conditions", Gen: func(emit func(core.Case)) {
 			for depth := 2; depth <= 3; depth++ {
 				nb := 2
@@ -387,6 +399,14 @@ func c06Levels(tier string) []core.Level {
 				}
 			}
 		}},
+		{Name: "inline conditions that read the loop metadata (index0, last, first, index, revindex0, length, revindex; 9 conditions) over lengths 0..6, alone and inside an outer loop of 3: the element's own metadata decides (or the construct is refused), never an enclosing loop's", Gen: func(emit func(core.Case)) {
+			for n := 0; n <= 6; n++ {
+				for ci := 0; ci < 9; ci++ {
+					emit(core.Case{Fam: "forifloop", N: []int{n, ci, 0}})
+					emit(core.Case{Fam: "forifloop", N: []int{n, ci, 1}})
+				}
+			}
+		}},
 		{Name: "loops inside branches and branches inside loops (depth 3 mixes)", Gen: func(emit func(core.Case)) {
 			for n := 0; n <= 3; n++ {
 				for m := 0; m < 1<<uint(n+1); m++ {
@@ -417,8 +437,72 @@ func c06Compare(src string, ctx map[string]stick.Value, want string, nt bool) co
 	return core.Okay(nt, out)
 }
 
+// c06Lits are conditions written as literals (and other constant expressions). Their truth is not tabulated here: it is
+// what the library's own coercion gives for the value the expression evaluates to (captured through a function), so a
+// literal condition must choose the same branch as the same value held by a variable.
+var c06Lits = []string{"true", "false", "0", "1", "00", "0.0", "0.5", "2", "''", "\"\"", "'a'", "'0'", "\"0\"", "'00'", "' '", "'false'", "'0.0'", "null", "[]", "[0]", "{}",
+	"{'a': 1}", "(0)", "('0')", "(\"a\")", "(true)", "((false))", "-1", "-0", "not 0", "not '0'", "'0' ~ ''", "\"#{0}\"", "1 - 1", "'0'|up", "TRUE", "none"}
+
+// c06LitChain renders an if / elseif chain over the conditions lits[idx...] written in the given form (0 literal,
+// 1 parenthesised, 2 through a variable holding the captured value) and returns what it must render.
+func c06LitChain(idx []int, hasElse bool, form int) core.Result {
+	env := stick.New(nil)
+	addStdCallbacks(env)
+	var captured []stick.Value
+	env.Functions["cap"] = func(ctx stick.Context, args ...stick.Value) stick.Value {
+		captured = append(captured, args[0])
+		return ""
+	}
+	pre := ""
+	for _, i := range idx {
+		pre += "{{ cap(" + c06Lits[i] + ") }}"
+	}
+	if out, err, pan := tryExec(env, pre, nil); err != nil || pan != "" || out != "" || len(captured) != len(idx) {
+		return core.Violation("error", fmt.Sprintf("%q does not evaluate: %v %s", pre, err, pan))
+	}
+	src, want := "", ""
+	chosen := false
+	ctx := map[string]stick.Value{}
+	for k, i := range idx {
+		kw := "elseif"
+		if k == 0 {
+			kw = "if"
+		}
+		cond := c06Lits[i]
+		switch form {
+		case 1:
+			cond = "(" + cond + ")"
+		case 2:
+			cond = "c" + itoa(k)
+			ctx[cond] = captured[k]
+		}
+		src += "{% " + kw + " " + cond + " %}B" + itoa(k)
+		if !chosen && stick.CoerceBool(captured[k]) {
+			chosen = true
+			want = "B" + itoa(k)
+		}
+	}
+	if hasElse {
+		src += "{% else %}E"
+		if !chosen {
+			want = "E"
+		}
+	}
+	src = "[" + src + "{% endif %}]"
+	out, err, pan := tryExec(env, src, ctx)
+	if pan != "" || err != nil {
+		return core.Violation("error", fmt.Sprintf("%q does not render: %v %s", src, err, pan))
+	}
+	if out != "["+want+"]" {
+		return core.Violation("output", fmt.Sprintf("%q renders %q, want %q: the conditions evaluate to %#v, which the library coerces to %v", src, out, "["+want+"]", captured, want))
+	}
+	return core.Okay(true, out)
+}
+
 func c06Run(c core.Case) core.Result {
 	switch c.Fam {
+	case "litchain":
+		return c06LitChain(c.N[2:], c.N[0] == 1, c.N[1])
 	case "tpl":
 		return c06Compare(c.Src, c06Ctx(), c.Exp, true)
 	case "loop":
@@ -571,6 +655,50 @@ func c06Run(c core.Case) core.Result {
 			return c06Compare("("+head+"{% else %}E{% endfor %})", map[string]stick.Value{"sat": sat}, "("+want+")", true)
 		}
 		return c06Compare("("+head+"{% endfor %})", map[string]stick.Value{"sat": sat}, "("+want+")", n > 0)
+	case "forifloop":
+		// an inline condition that reads the loop metadata: it is the element's own metadata (or the construct is
+		// refused, as Twig does) - never silently that of an enclosing loop or an undefined value
+		n, ci, nested := c.N[0], c.N[1], c.N[2] == 1
+		conds := []struct {
+			src string
+			ok  func(i, n int) bool
+		}{
+			{"loop.index0 % 2 == 0", func(i, n int) bool { return i%2 == 0 }},
+			{"not loop.last", func(i, n int) bool { return i != n-1 }},
+			{"loop.first", func(i, n int) bool { return i == 0 }},
+			{"loop.index > 1", func(i, n int) bool { return i > 0 }},
+			{"loop.revindex0 > 0", func(i, n int) bool { return n-1-i > 0 }},
+			{"loop.length == 3", func(i, n int) bool { return n == 3 }},
+			{"loop.index == v", func(i, n int) bool { return true }},
+			{"loop.revindex == 2 or loop.last", func(i, n int) bool { return n-i == 2 || i == n-1 }},
+			{"v > 1 and loop.index0 < 3", func(i, n int) bool { return i+1 > 1 && i < 3 }},
+		}
+		cd := conds[ci]
+		var els []string
+		inner := ""
+		for i := 0; i < n; i++ {
+			els = append(els, itoa(i+1))
+			if cd.ok(i, n) {
+				inner += itoa(i+1) + ","
+			}
+		}
+		src := "{% for v in [" + strings.Join(els, ", ") + "] if " + cd.src + " %}{{ v }},{% endfor %}"
+		want := inner
+		if nested {
+			src = "{% for o in ['p', 'q', 'r'] %}{{ o }}:" + src + ";{% endfor %}"
+			want = "p:" + inner + ";q:" + inner + ";r:" + inner + ";"
+		}
+		out, err, pan := c06Exec("("+src+")", nil)
+		if pan != "" {
+			return core.Violation("panic", fmt.Sprintf("%q panicked: %s", src, pan))
+		}
+		if err != nil {
+			return core.Okay(true, "loop-in-condition-refused")
+		}
+		if out != "("+want+")" {
+			return core.Violation("output", fmt.Sprintf("%q renders %q, want %q (the condition reads the metadata of the element being tested)", src, out, "("+want+")"))
+		}
+		return core.Okay(n > 0, out)
 	case "indirect":
 		// loop metadata read by code that is not written in the loop body: a registered filter / test / function
 		// looking at the scope, and a block in the body that a child template overrides
